@@ -63,6 +63,8 @@ def rec_elem(cx, l: SList, j) -> SObj:
     for f, mk in l.ghost["rec_other"].items():
         fields[f] = mk(cx, jt)
     o = SObj(l.ghost["rec_cls"], fields, fresh=True)
+    if "seq" in l.ghost:
+        o.ident = l.ghost["seq"][jt]
     o.ghost_index = (l, jt)  # type: ignore[attr-defined]
     return o
 
